@@ -143,6 +143,7 @@ func load(repo, verif string, dirFiles map[string][]string, dirs map[string]bool
 	for i, p := range pkgs {
 		d := strings.TrimPrefix(p.PkgPath, "github.com/nsqio/nsq/")
 		l.pkgs[d] = spkgs[i]
+		loadedPkgs[d] = p
 	}
 	return l, nil
 }
@@ -199,7 +200,7 @@ func newInterp(l *loaded, tier string, solverTimeout int) (*Interp, error) {
 	if err != nil {
 		return nil, err
 	}
-	in := &Interp{prog: l.prog, tt: tt, solver: s, tier: tier, maxSteps: 3000000, maxPaths: 200000, maxPreempt: 2, fnInfos: map[*ssa.Function]*fnInfo{}, varMemo: map[int][]int{}, noSlice: os.Getenv("VERIF_NOSLICE") != ""}
+	in := &Interp{prog: l.prog, tt: tt, solver: s, tier: tier, maxSteps: 3000000, maxPaths: 200000, maxPreempt: 2, fnInfos: map[*ssa.Function]*fnInfo{}, varMemo: map[int][]int{}, qcache: map[string]*qcEntry{}, noSlice: os.Getenv("VERIF_NOSLICE") != ""}
 	return in, nil
 }
 
